@@ -13,7 +13,7 @@ import json, random
 from . import common as C
 
 PID = "C12"
-MUTANTS = ["n_not_scaled", "volume_ignored", "rho_is_n"]
+MUTANTS = ["n_not_scaled", "volume_ignored", "rho_is_n", "stale_matter_norm", "n_unit_blind"]
 DEV_TAGS = {"mass_fraction_mode", "element_proportion", "number_density_dict_form"}
 
 
@@ -70,6 +70,8 @@ def concretisations(rec, nconc, rnd):
         inp = {"A.p.%d" % (i + 1): props[i] for i in range(k)}
         inp["A.d"] = d
         inp["A.v"] = v
+        # the amount a later add() tops an existing component up with
+        inp["A.q"] = 2 if j == 0 else (rnd.randint(1, 9) if rec["pint"] else round(10 ** rnd.uniform(-2, 2), 4))
         out.append({"names": names, "natural": natural, "inp": inp})
     return out
 
@@ -135,7 +137,7 @@ def run(replay=None):
     nontrivial, kinds, nobl = set(), {}, 0
     mach_disagree = 0
     for (rec, conc), (st, det) in zip(cases, res):
-        key = (rec["kind"], rec["cls"], rec["mode"], rec["form"], rec["k"], rec["given"], rec["vol"],
+        key = (rec["kind"], rec["j"], rec["cls"], rec["mode"], rec["form"], rec["k"], rec["given"], rec["vol"],
                tuple((o["ud"], o["uv"]) for o in rec["objects"]))
         kk = "/".join(map(str, key[:3]))
         kinds[kk] = kinds.get(kk, 0) + 1
